@@ -454,3 +454,43 @@ func (w *World) pathConds(path []ssa.Instruction) []string {
 	})
 	return out
 }
+
+// byteAtoms: the content of a []byte value as a sequence of atoms — []byte(string expression), or a buffer grown by
+// appends of constant bytes and strings from an empty start (raw = append(raw, 0); raw = append(raw, user...)).
+func byteAtoms(v ssa.Value) ([]atom, bool) {
+	v = origin(v)
+	if s, ok := bytesOfString(v); ok {
+		return strAtoms(s), true
+	}
+	switch x := v.(type) {
+	case *ssa.MakeSlice:
+		if n, ok := intConst(x.Len); ok && n == 0 {
+			return nil, true
+		}
+	case *ssa.Call:
+		if b, ok := x.Call.Value.(*ssa.Builtin); ok && b.Name() == "append" && len(x.Call.Args) == 2 {
+			head, ok := byteAtoms(x.Call.Args[0])
+			if !ok {
+				return nil, false
+			}
+			arg := x.Call.Args[1]
+			if isStringType(arg.Type()) {
+				return append(head, strAtoms(arg)...), true
+			}
+			if elems := sliceLitElems(arg); len(elems) > 0 {
+				for _, e := range elems {
+					k, isK := intConst(e)
+					if !isK || k < 0 || k > 255 {
+						return nil, false
+					}
+					head = append(head, atom{IsC: true, Const: string([]byte{byte(k)})})
+				}
+				return head, true
+			}
+			if tail, ok := byteAtoms(arg); ok {
+				return append(head, tail...), true
+			}
+		}
+	}
+	return nil, false
+}
